@@ -29,7 +29,7 @@ pub struct GameServerSpec {
 #[derive(Deserialize, Serialize, Clone, Debug, Default, JsonSchema)]
 pub struct GameServerStatus {
     address: String,
-    #[serde(default)]
+    #[serde(default, deserialize_with = "null_as_default")]
     ports: Vec<GameServerPort>,
     state: String,
     counters: Option<HashMap<String, GameServerCounter>>,
@@ -54,8 +54,18 @@ pub struct GameServerCounter {
 #[derive(Deserialize, Serialize, Clone, Debug, Default, JsonSchema)]
 pub struct GameServerList {
     capacity: Option<i64>,
-    #[serde(default)]
+    #[serde(default, deserialize_with = "null_as_default")]
     values: Vec<String>,
+}
+
+/// Reads `null` like a missing field. The Agones API is written in Go, where an empty (nil) slice
+/// is serialized as `null`, e.g. the ports of a game server that was not allocated any yet.
+fn null_as_default<'de, D, T>(deserializer: D) -> Result<T, D::Error>
+where
+    D: serde::Deserializer<'de>,
+    T: Default + Deserialize<'de>,
+{
+    Ok(Option::<T>::deserialize(deserializer)?.unwrap_or_default())
 }
 
 impl TryFrom<GameServer> for Target {
